@@ -85,6 +85,16 @@ def canonTri (a b c : List Nat) : List Nat :=
   let m := if lexLe r1 r2 then r1 else r2
   if lexLe m r3 then m else r3
 
+/-- multiset inclusion of sorted lists -/
+def subMultiset : List (List Nat) → List (List Nat) → Bool
+  | [], _ => true
+  | _ :: _, [] => false
+  | a :: as, b :: bs =>
+    if a == b then subMultiset as bs
+    else if lexLe b a then subMultiset (a :: as) bs
+    else false
+termination_by l r => l.length + r.length
+
 /-- requested quantization: unique id ↦ bits (attributes not listed must be reproduced bit-exactly) -/
 abbrev QuantReq := List (Nat × Nat)
 
@@ -99,8 +109,14 @@ def check (cls : MethodClass) (req : QuantReq) (g g' gs : Geometry) : String := 
   let mut origViews : Array AttView := #[]
   let mut decViews : Array AttView := #[]
   let mut trs : Array TransformData := #[]
+  -- the skipped decode is matched to the ordinary decode by attribute index (its unique ids are
+  -- the subject of C10, not of this relation)
+  let skipOf := fun (uid : Nat) =>
+    match g'.atts.findIdx? (·.uniqueId == uid) with
+    | some i => gs.atts[i]?
+    | none => none
   for a in g.atts do
-    match findAtt g' a.uniqueId, findAtt gs a.uniqueId with
+    match findAtt g' a.uniqueId, skipOf a.uniqueId with
     | some d, some s =>
       if d.attType != a.attType || d.dataType != a.dataType || d.numComponents != a.numComponents || d.normalized != a.normalized then
         return s!"violation: descriptor of attribute uid {a.uniqueId} changed"
@@ -150,11 +166,15 @@ def check (cls : MethodClass) (req : QuantReq) (g g' gs : Geometry) : String := 
     let pidx := fun (p : Nat) => match pos, posView with
       | some a, some m => valueIndex a m p
       | _, _ => posIdx p
-    let keep := g.faces.filter fun (a, b, c) => pidx a != pidx b && pidx b != pidx c && pidx a != pidx c
-    if keep.length != g'.faces.length then return s!"violation: {g'.faces.length} faces decoded, {keep.length} non-degenerate faces encoded"
-    let e := sortRows (keep.map fun (a, b, c) => canonTri (expTuple a) (expTuple b) (expTuple c))
+    -- triangles that use one position entry twice may be omitted (they are when the corner table
+    -- is built from positions; with a single connectivity only repeated point ids are dropped)
+    let nondeg := g.faces.filter fun (a, b, c) => pidx a != pidx b && pidx b != pidx c && pidx a != pidx c
+    let all := sortRows (g.faces.map fun (a, b, c) => canonTri (expTuple a) (expTuple b) (expTuple c))
+    let req := sortRows (nondeg.map fun (a, b, c) => canonTri (expTuple a) (expTuple b) (expTuple c))
     let d := sortRows (g'.faces.map fun (a, b, c) => canonTri (decTuple a) (decTuple b) (decTuple c))
-    if e != d then return "violation: multiset of triangles differs" else return "ok"
+    if !subMultiset req d then return s!"violation: a non-degenerate input triangle is missing ({g'.faces.length} faces decoded, {nondeg.length} non-degenerate of {g.faces.length} encoded)"
+    if !subMultiset d all then return s!"violation: a decoded triangle is not an input triangle ({g'.faces.length} faces decoded, {g.faces.length} encoded)"
+    return "ok"
 
 /-- C10: applying the described transform to the values exposed by the skipped decode reproduces
     the ordinary decode bit for bit; untransformed attributes and connectivity are identical.
